@@ -30,6 +30,8 @@ REGISTRY = {
     "C13": ("vf.props.rebuild_family", "C13"),
     "C14": ("vf.props.rebuild_family", "C14"),
     "C19": ("vf.props.rebuild_family", "C19"),
+    "C17": ("vf.props.fs_family", "C17"),
+    "C18": ("vf.props.fs_family", "C18"),
 }
 
 
